@@ -2,8 +2,7 @@
    Property theorems only; proofs in Qty/Proofs.v (exact level) and
    Qty/Struct.v (any number type, hence IEEE doubles, given the stated laws). *)
 From Coq Require Import List ZArith QArith Qcanon String Bool.
-From NV Require Import Qty.Model Qty.Exec Qty.Proofs Qty.Struct Qty.MinUnit Qty.TableSem Qty.Good Qty.Demo
-                       Qty.FloatExact Qty.DemoF.
+From NV Require Import Qty.Model Qty.Exec Qty.Proofs Qty.Struct Qty.MinUnit Qty.TableSem Qty.Good Qty.Demo.
 Import ListNotations.
 Local Open Scope Qc_scope.
 
@@ -129,20 +128,4 @@ Proof.
   simpl. split; [vm_compute; reflexivity|]. split; [vm_compute; reflexivity|].
   split; [vm_compute; reflexivity|]. split; [vm_compute; discriminate|].
   eexists. split; [vm_compute; reflexivity|]. split; [reflexivity | apply Qc_is_canon; vm_compute; reflexivity].
-Qed.
-
-(* ---- float-exact level (kernel binary64): the hypotheses of C12_bitwise hold for
-   3 ft and 10 in, and both orders give the same unit and the same bits *)
-Example C12_float_nonvacuous :
-  let a := qf 3 (uf 4) in let b := qf 10 (uf 3) in
-  q_is_zero FN a = false /\ q_is_zero FN b = false
-  /\ unit_eq DF_keys (q_unit a) (q_unit b) = false
-  /\ sizes_differ FN DF_res (q_unit a) (q_unit b)
-  /\ (exists r r', qadd FN demo_tblF DF_res DF_keys a b = Ok r /\ qadd FN demo_tblF DF_res DF_keys b a = Ok r'
-                   /\ q_unit r = uf 3 /\ q_unit r' = uf 3 /\ f_same (q_val r) (q_val r') = true).
-Proof.
-  simpl. split; [vm_compute; reflexivity|]. split; [vm_compute; reflexivity|].
-  split; [vm_compute; reflexivity|]. split; [vm_compute; discriminate|].
-  eexists. eexists. split; [vm_compute; reflexivity|]. split; [vm_compute; reflexivity|].
-  repeat split; vm_compute; reflexivity.
 Qed.
